@@ -4,7 +4,7 @@ from core.report import Rule
 from core.sm9 import Repo, U256
 from core.terms import strip, alts, walk, show
 from core.lensim import OKISH, ERRISH
-from . import shared, convert, profile
+from . import shared, convert, profile, layout
 from .shared import loc_of
 
 R1_64 = range(1, 65)
@@ -385,6 +385,7 @@ def run(ctx):
             rules.append(rule_setbit(repo))
             rules.append(rule_be_layout(repo, ls))
             rules.append(rule_canon_out(repo))
+            rules.append(layout.rule_conv_traits("C13", repo))
             rules.append(profile.rule_int_total("C13", repo, ["crate::Fr::set_bit", "crate::fields::fp::Fr::set_bit", "crate::fields::fp::Fq::set_bit", "crate::u256::U256::set_bit", "crate::u256::U256::get_bit"]))
     return report.emit(
         "C13", ctx.tier, ctx.seed, rules, ctx.started,
